@@ -363,6 +363,35 @@ def r12_subtractions(ctx, reach):
                        "`%s - %s` is dominated by a comparison that excludes underflow" % (fmt(a)[:30], fmt(b)[:30]) if guarded else
                        "`%s - %s` (%s) on input-reachable code has no dominating guard: an input that makes the subtrahend larger panics the task that parses it (overflow checks on) or yields a length near 2^64 "
                        "(checks off)" % (fmt(a)[:50], fmt(b)[:50], ty))
+    # `Duration - Duration` and `Instant - Duration` panic on underflow like integer subtraction does (anywhere in the crate: these
+    # run in long-lived tasks — monitors, reapers, request paths — whose silent death is the failure)
+    nd = 0
+    for key, body in ctx.P.scan():
+        if key.startswith(("anytls_", "util::cert", "util::tls")):
+            continue
+        o = None
+        for c in body.calls():
+            cal = c.callee or ""
+            if not (cal.endswith(("::sub", "::sub_assign")) and ("Duration" in cal or "Instant" in cal or "SystemTime" in cal)) or len(c.args) < 2:
+                continue
+            if "Instant as std::ops::Sub>::sub" in cal or "Sub<std::time::Instant>" in cal or "Sub<tokio::time::Instant>" in cal:
+                continue        # Instant - Instant saturates to zero
+            o = o or ctx.origins(body)
+            cfg, conds = ctx.cfg(body), ctx.conds(body)
+            a, b = o.of_operand(c.args[0]), o.of_operand(c.args[1])
+            nd += 1
+            guarded = False
+            for cd in conds.all():
+                t = cd.term
+                if cd.kind == "bool" and is_call_term(t, "PartialOrd::le", "PartialOrd>::le", "PartialOrd::lt", "PartialOrd>::lt") and len(t[3]) == 2:
+                    if strip_bb(t[3][0]) == strip_bb(b) and strip_bb(t[3][1]) == strip_bb(a) and cfg.edges_dominate(cd.edges_for(True), c.bb):
+                        guarded = True
+                    if strip_bb(t[3][0]) == strip_bb(a) and strip_bb(t[3][1]) == strip_bb(b) and cfg.edges_dominate(cd.edges_for(False), c.bb):
+                        guarded = True
+            ctx.ob("R20.12", "%s|duration-sub#%d" % (ctx.P.owner(key), nd), guarded, c.site, "the time subtraction is dominated by a comparison that excludes underflow" if guarded else
+                   "`%s - %s` on Duration/Instant values panics when the subtrahend is the larger one (use checked_sub / saturating_sub): the task that computes it — a monitor, a reaper, a pending open — dies silently, "
+                   "for exactly the configurations or timings in which the difference is negative" % (fmt(a)[:40], fmt(b)[:40]))
+    ctx.ob("R20.12", "crate:time-subtractions-guarded", True, "", "%d Duration/Instant subtractions examined" % nd, nontrivial=False)
     ctx.floor("R20.12", "arithmetic statements seen on input-reachable code (matcher self-check)", n_arith, 10)
     ctx.ob("R20.12", "input-reachable-set:subtractions-guarded", True, "", "%d plain subtractions examined" % n, nontrivial=False)
 
